@@ -4,3 +4,219 @@ use super::*;
 
 #[cfg(test)]
 include!("/verif/.build/playback/page_walker.inc");
+
+// ---- C02 / C05 / C06: the store's root, proofs and witnesses on structured key sets ----------------
+// Bounded native enumeration through the crate's public entry points (run by `cargo kani playback`).
+// The page walker, seeker and workers are threads over a live page cache and store: neither Verus
+// nor CBMC takes them, so what stands in for their contracts is checked on scripted histories whose
+// key sets are built to cross page boundaries and the page-elision threshold in both directions.
+#[cfg(test)]
+mod native_store {
+    use crate::hasher::{Blake3Hasher as H, NodeHasher, ValueHasher};
+    use nomt_core::trie::{InternalData, KeyPath, LeafData, Node, ValueHash, TERMINATOR};
+
+    pub fn bit(k: &KeyPath, i: usize) -> bool {
+        (k[i / 8] >> (7 - i % 8)) & 1 == 1
+    }
+    /// the root of the specified trie (docs/nomt_specification.md), independent of build_trie and
+    /// of the page walker
+    pub fn ref_node(items: &[(KeyPath, ValueHash)], depth: usize) -> Node {
+        match items.len() {
+            0 => TERMINATOR,
+            1 => H::hash_leaf(&LeafData { key_path: items[0].0, value_hash: items[0].1 }),
+            _ => {
+                let split = items.iter().position(|(k, _)| bit(k, depth)).unwrap_or(items.len());
+                H::hash_internal(&InternalData { left: ref_node(&items[..split], depth + 1), right: ref_node(&items[split..], depth + 1) })
+            }
+        }
+    }
+    pub fn ref_root(model: &std::collections::BTreeMap<KeyPath, Vec<u8>>) -> Node {
+        let items: Vec<(KeyPath, ValueHash)> = model.iter().map(|(k, v)| (*k, H::hash_value(v))).collect();
+        ref_node(&items, 0)
+    }
+    /// 26 keys under one 8-bit prefix (one child page fills up past the elision threshold), 6 spread
+    /// keys, and a pair that splits at the very last bit (a 42-page-deep path)
+    pub fn key_a(i: u8) -> KeyPath { let mut k = [0u8; 32]; k[0] = 0xA5; k[1] = i.wrapping_mul(8).wrapping_add(i / 32); k[2] = i; k }
+    pub fn key_b(i: u8) -> KeyPath { let mut k = [0u8; 32]; k[0] = [0x00, 0x20, 0x40, 0x60, 0xE0, 0xFF][i as usize]; k[5] = i; k }
+    pub fn key_c(i: u8) -> KeyPath { let mut k = [0x33u8; 32]; k[31] = i; k }
+}
+
+#[cfg(test)]
+fn native_store_script() -> Vec<Vec<(nomt_core::trie::KeyPath, Option<Vec<u8>>)>> {
+    use native_store::*;
+    let val = |tag: u8, len: usize| Some(vec![tag; len]);
+    vec![
+        (0..6).map(|i| (key_b(i), val(0x10 + i, 8))).collect(),
+        (0..10).map(|i| (key_a(i), val(0x20 + i, 33))).collect(),
+        (10..26).map(|i| (key_a(i), val(0x40 + i, 5))).collect(),
+        vec![(key_c(0), val(0x71, 2000)), (key_c(1), val(0x72, 1))],
+        vec![(key_a(3), val(0x99, 7)), (key_b(2), val(0x98, 0)), (key_a(25), None), (key_c(1), val(0x73, 3))],
+        (5..26).map(|i| (key_a(i), None)).collect(),
+        vec![(key_c(1), None)],
+        (5..15).map(|i| (key_a(i), val(0x60 + i, 9))).collect(),
+        (0..6).map(|i| (key_b(i), None)).collect(),
+        (0..15).map(|i| (key_a(i), None)).chain(Some((key_c(0), None))).collect(),
+    ]
+}
+
+/// Bounded native enumeration (not a proof) through Nomt::{open, begin_session}, Session::{read,
+/// warm_up, prove, finish}, FinishedSession::{root, take_witness, commit}: a ten-batch script over 34
+/// structured keys (inserts, overwrites, deletes; one child page grows past the elision threshold and
+/// shrinks below it again; a 2000-byte value; a pair of keys splitting at bit 255; finally
+/// everything deleted), run for commit concurrency 1 (default tuning) and 3 (tiny page and leaf
+/// caches, warm-up on, 2 I/O workers, varying upper-level pinning, cache pre-population and hash-table
+/// seed), each with and without a close-and-reopen after every commit, and for four rotations of the
+/// batch order.  After every commit:
+///  * [C02] the reported root equals the root of the specified trie over the model's key-value set
+///    (the all-zero terminator when it is empty), and [C13] is the same for every configuration;
+///  * [C05] for every key of the universe, present or absent, a fresh session's path proof verifies
+///    against that root and confirms exactly the model's view;
+///  * [C06] the session's witness verifies against the previous root, attests for every read key the
+///    value the model had and covers every written key, and the update verifier applied to the
+///    witnessed writes returns the new root;
+///  * [C01/C10] every key reads back the model's value, also after the reopen.
+#[cfg(test)]
+#[test]
+fn native_enum_store_root_proofs_witness() {
+    use crate::hasher::{Blake3Hasher, ValueHasher};
+    use crate::{KeyReadWrite, Nomt, Options, SessionParams, WitnessMode};
+    use bitvec::prelude::*;
+    use native_store::*;
+    use nomt_core::trie::{KeyPath, LeafData};
+    use std::collections::BTreeMap;
+    let script = native_store_script();
+    let universe: Vec<KeyPath> = (0..26).map(key_a).chain((0..6).map(key_b)).chain((0..2).map(key_c)).chain(Some([0x5Au8; 32])).collect();
+    let mut runs = 0;
+    let mut roots_by_prefix: BTreeMap<Vec<usize>, [u8; 32]> = BTreeMap::new();
+    for rotation in 0..4usize {
+        for workers in [1usize, 3] {
+            for reopen in [false, true] {
+                let dir = tempfile::tempdir().unwrap();
+                let open = || {
+                    let mut o = Options::new();
+                    o.path(dir.path().join("db"));
+                    o.commit_concurrency(workers);
+                    o.hashtable_buckets(4096);
+                    o.bitbox_seed([3; 16]);
+                    if workers > 1 {
+                        // the other end of the tuning space: tiny caches, warm-up on, more I/O workers,
+                        // no cache pre-population, a different hash-table seed for the reopening runs
+                        o.page_cache_size(1);
+                        o.leaf_cache_size(1);
+                        o.warm_up(true);
+                        o.io_workers(2);
+                        o.prepopulate_page_cache(reopen);
+                        o.page_cache_upper_levels(rotation % 3);
+                        if rotation % 2 == 1 { o.bitbox_seed([0xC7; 16]); }
+                    }
+                    Nomt::<Blake3Hasher>::open(o).unwrap()
+                };
+                let mut nomt = open();
+                let mut model: BTreeMap<KeyPath, Vec<u8>> = BTreeMap::new();
+                let mut done: Vec<usize> = Vec::new();
+                for step in 0..script.len() {
+                    // rotations keep the first three batches (population) in place and rotate the rest
+                    let b = if step < 3 { step } else { 3 + (step - 3 + rotation * 2) % (script.len() - 3) };
+                    let what = format!("rotation {}, {} worker(s), reopen {}, after batch {} (history {:?})", rotation, workers, reopen, b, done);
+                    let prev_root = nomt.root().into_inner();
+                    let session = nomt.begin_session(SessionParams::default().witness_mode(WitnessMode::read_write()));
+                    let mut actuals: Vec<(KeyPath, KeyReadWrite)> = Vec::new();
+                    let mut expected_reads: BTreeMap<KeyPath, Option<Vec<u8>>> = BTreeMap::new();
+                    for (k, v) in &script[b] {
+                        session.warm_up(*k);
+                        if k[2] % 2 == 0 {
+                            // read-then-write for half of the keys
+                            let seen = session.read(*k).unwrap();
+                            assert!(seen == model.get(k).cloned(), "session read of a key differs from the model ({})", what);
+                            expected_reads.insert(*k, seen.clone());
+                            actuals.push((*k, KeyReadWrite::ReadThenWrite(seen, v.clone())));
+                        } else {
+                            actuals.push((*k, KeyReadWrite::Write(v.clone())));
+                        }
+                    }
+                    // plus pure reads of a present and an absent key
+                    for k in [key_b(0), [0x5Au8; 32]] {
+                        if actuals.iter().any(|(a, _)| *a == k) { continue; }
+                        session.warm_up(k);
+                        let seen = session.read(k).unwrap();
+                        expected_reads.insert(k, seen.clone());
+                        actuals.push((k, KeyReadWrite::Read(seen)));
+                    }
+                    actuals.sort_by_key(|(k, _)| *k);
+                    let mut finished = session.finish(actuals).unwrap();
+                    let new_root = finished.root().into_inner();
+                    let witness = finished.take_witness().unwrap();
+                    finished.commit(&nomt).unwrap();
+                    for (k, v) in &script[b] {
+                        match v { Some(v) => { model.insert(*k, v.clone()); } None => { model.remove(k); } }
+                    }
+                    done.push(b);
+
+                    // [C02]
+                    assert!(nomt.root().into_inner() == new_root, "Nomt::root differs from the finished session's root ({})", what);
+                    assert!(new_root == ref_root(&model), "the reported root is not the root of the specified trie over the {} committed pairs ({})", model.len(), what);
+                    if model.is_empty() { assert!(nomt.root().is_empty()); }
+                    if let Some(r) = roots_by_prefix.get(&done) {
+                        assert!(*r == new_root, "same history, different configuration, different root ({})", what);
+                    } else {
+                        roots_by_prefix.insert(done.clone(), new_root);
+                    }
+
+                    // [C06]
+                    let mut updates = Vec::new();
+                    let mut reads_seen = 0;
+                    for (i, wp) in witness.path_proofs.iter().enumerate() {
+                        let verified = wp.inner.verify::<Blake3Hasher>(&wp.path.path(), prev_root)
+                            .unwrap_or_else(|e| panic!("a witnessed path does not verify against the previous root: {:?} ({})", e, what));
+                        for read in witness.operations.reads.iter().filter(|r| r.path_index == i) {
+                            let want = expected_reads.get(&read.key).unwrap_or_else(|| panic!("the witness attests a key that was not read ({})", what));
+                            assert!(read.value == want.as_ref().map(|v| Blake3Hasher::hash_value(v)), "the witness attests another value than the session observed ({})", what);
+                            match read.value {
+                                None => assert!(verified.confirm_nonexistence(&read.key).unwrap(), "witnessed non-existence not confirmed ({})", what),
+                                Some(v) => assert!(verified.confirm_value(&LeafData { key_path: read.key, value_hash: v }).unwrap(), "witnessed value not confirmed ({})", what),
+                            }
+                            reads_seen += 1;
+                        }
+                        let ops: Vec<_> = witness.operations.writes.iter().filter(|w| w.path_index == i).map(|w| (w.key, w.value)).collect();
+                        if !ops.is_empty() {
+                            updates.push(crate::proof::PathUpdate { inner: verified, ops });
+                        }
+                    }
+                    assert!(reads_seen == expected_reads.len(), "the witness attests {} reads, the session made {} ({})", reads_seen, expected_reads.len(), what);
+                    assert!(witness.operations.writes.len() == script[b].len(), "the witness covers {} writes, the session made {} ({})", witness.operations.writes.len(), script[b].len(), what);
+                    updates.sort_by(|a, b| a.inner.path().partial_cmp(b.inner.path()).unwrap());
+                    let replayed = crate::proof::verify_update::<Blake3Hasher>(prev_root, &updates)
+                        .unwrap_or_else(|e| panic!("the update verifier rejects the witnessed writes: {:?} ({})", e, what));
+                    assert!(replayed == new_root, "replaying the witnessed writes does not give the reported new root ({})", what);
+
+                    if reopen {
+                        drop(nomt);
+                        nomt = open();
+                        assert!(nomt.root().into_inner() == new_root, "the root changed over a reopen ({})", what);
+                    }
+
+                    // [C05] + [C01]
+                    let s = nomt.begin_session(SessionParams::default());
+                    for k in &universe {
+                        let proof = s.prove(*k).unwrap();
+                        let v = proof.verify::<Blake3Hasher>(k.view_bits::<Msb0>(), new_root)
+                            .unwrap_or_else(|e| panic!("the path proof of a key does not verify against the root: {:?} ({})", e, what));
+                        match model.get(k) {
+                            Some(val) => {
+                                assert!(v.confirm_value(&LeafData { key_path: *k, value_hash: Blake3Hasher::hash_value(val) }).unwrap(), "the proof does not confirm the stored value ({})", what);
+                                assert!(!v.confirm_nonexistence(k).unwrap(), "the proof denies a present key ({})", what);
+                            }
+                            None => assert!(v.confirm_nonexistence(k).unwrap(), "the proof does not confirm the absence of a key ({})", what),
+                        }
+                        assert!(s.read(*k).unwrap().as_ref() == model.get(k), "a key reads back another value than its last committed write ({})", what);
+                        assert!(nomt.read(*k).unwrap().as_ref() == model.get(k), "a direct read differs from the model ({})", what);
+                    }
+                    drop(s);
+                }
+                assert!(model.is_empty() || rotation != 0);
+                runs += 1;
+            }
+        }
+    }
+    assert!(runs == 16);
+}
